@@ -10,7 +10,7 @@ rm -rf "$W/harness"
 [ -d "$W/repo" ] && git -C /repo worktree remove --force "$W/repo" 2>/dev/null || true
 mkdir -p "$W"
 git -C /repo worktree add --detach "$W/repo" HEAD >/dev/null
-cp -a /verif/harness "$W/harness"
+cp -a /verif/harness "$W/harness" 2>/dev/null || true
 sed -i "s#/repo/#$W/repo/#g" "$W/harness/Cargo.toml"
 sed -i "s#/verif/harness/target#$W/harness/target#" "$W/harness/.cargo/config.toml"
 echo "workspace ready: $W  (build: cd $W/harness && cargo build --offline --profile verif -p <vt|vn|vg>)"
